@@ -139,8 +139,30 @@ func (r *Run) global(g *ssa.Global) *Value {
 	}
 	p := new(Value)
 	*p = zero(g.Type().Underlying().(*types.Pointer).Elem())
+	// sentinel errors of packages whose initialisers are not executed
+	if g.Pkg != nil {
+		if msg, ok := sentinelErrors[g.Pkg.Pkg.Path()+"."+g.Name()]; ok {
+			t := r.P.NamedType("fmt", "wrapError")
+			st := zero(t).(Struct)
+			st[0] = S(msg)
+			pv := new(Value)
+			*pv = st
+			*p = Iface{T: types.NewPointer(t), V: pv}
+		}
+	}
 	r.globals[g] = p
 	return p
+}
+
+var sentinelErrors = map[string]string{
+	"net/http.ErrAbortHandler":   "net/http: abort Handler",
+	"net/http.ErrServerClosed":   "http: Server closed",
+	"net/http.ErrHandlerTimeout": "http: Handler timeout",
+	"net/http.ErrBodyNotAllowed": "http: request method or response status code does not allow body",
+	"net/http.ErrUseLastResponse": "net/http: use last response",
+	"os.ErrDeadlineExceeded":     "i/o timeout",
+	"os.ErrClosed":               "file already closed",
+	"net.ErrClosed":              "use of closed network connection",
 }
 
 func (r *Run) step(g *G, in ssa.Instruction) {
